@@ -625,3 +625,21 @@ def clash_names(desc, rng):
         plain[0]["name"] = "ctrl_S"
         n += 1
     return d, n
+
+
+def redraw_link_params(desc, rng):
+    """Same topology and element kinds, other link objects' parameters (incl. segment counts)."""
+    import copy
+
+    d = copy.deepcopy(desc)
+    for l in d["links"]:
+        l["N"] = rng.choice((1, 2, 3, 4))
+        l["lam"] = rng.choice((1, 2, 3, 4))
+        l["L"] = round(rng.uniform(0.4, 1.6), 3)
+        l["rho_max"] = round(rng.uniform(160.0, 200.0), 2)
+        l["rho_crit"] = round(rng.uniform(25.0, 40.0), 2)
+        l["v_free"] = round(rng.uniform(90.0, 130.0), 2)
+        l["a"] = round(rng.uniform(1.2, 3.2), 3)
+        if l.get("vsl") is not None:
+            l["vsl"] = sorted(rng.sample(range(l["N"]), rng.randint(0, l["N"])))
+    return d
